@@ -218,7 +218,9 @@ DemoteBlocks(names) ==
 (* A call outside an operation's precondition that the library rejects (or should reject) by raising: renaming a rock
    type onto a name in use, deleting something that is not there, MINC whose generated matrix names collide.  A
    "clean" refusal leaves the grid as it was; after any refusal the grid is still consistent (the state invariants
-   are evaluated in the state it leaves behind, whatever that is).  Only recorded executions take this action. *)
+   are evaluated in the state it leaves behind, whatever that is).  The same action stands for a call that has
+   nothing to do: adding the block or connection object that is already in the grid.  Only recorded executions take
+   this action. *)
 Refused(c) ==
     /\ c.clean => UNCHANGED vars
     /\ last' = c
